@@ -2185,8 +2185,10 @@ fn probe_more() -> String {
         let refused_for_scheme = matches!(r, Err(ParseError::UnsupportedUrlScheme));
         sch.push(format!("[\"{}\",{}]", hexs(hd), !refused_for_scheme));
     }
+    let type_names: Vec<String> = types.iter().map(|t| format!("\"{}\":\"{}\"", ident_of_pkg(*t), t.name())).collect();
     format!(
-        ",\"dashObs\":[{}],\"errorTexts\":{{{}}},\"combinedObs\":{{{}}},\"schemeObs\":[{}]",
+        ",\"typeNames\":{{{}}},\"dashObs\":[{}],\"errorTexts\":{{{}}},\"combinedObs\":{{{}}},\"schemeObs\":[{}]",
+        type_names.join(","),
         dash.join(","),
         errs.join(","),
         comb.join(","),
